@@ -5,10 +5,14 @@ The JSON side speaks in strings (endpoint names, URLs, fingerprints in hex); the
 The driver INTERNS: every string of the input gets a number (`""` ↦ 0 for names / URLs, `""` ↦ `none`
 for fingerprints, anything else ↦ its position + 1 in the table of the strings of the input), and
 the output is translated back with the same table (the model only ever returns values it was given).
-The ghost CA state is the default one (`⟨0, none⟩`); it is never read (`ghost_not_read`).
+The ghost CA state (`EpRec.ca`: what the CA of the endpoint holds for the account the record points
+to) is never read by the model (`ghost_not_read`); it is an optional input — member "ca" of a record:
+{"key": fingerprint | "", "contacts": fingerprint | ""}, absent = the default `⟨0, none⟩` — and is
+always part of the output, so that the harness can compare it with what the real CA holds.
 
 Account shape:
-  {"endpoints": [[name, {"account_url", "orders_url", "key_hash", "contacts_hash", "eab_hash"}], …],
+  {"endpoints": [[name, {"account_url", "orders_url", "key_hash", "contacts_hash", "eab_hash"
+                         [, "ca": {"key", "contacts"}]}], …],
    "contacts_hash", "current_key_hash", "past_key_hashes": […], "eab_hash": null | string} -/
 import Drv.Common
 import AcmedVerif.Model.AccountMulti
@@ -33,7 +37,8 @@ def sOr (j : Json) (k : String) : String := match get j k with | .str s => s | _
 def epStrings (p : Json) : List String :=
   match arrOf p with
   | n :: r :: _ => [strOf n, sOr r "account_url", sOr r "orders_url", sOr r "key_hash",
-                    sOr r "contacts_hash", sOr r "eab_hash"]
+                    sOr r "contacts_hash", sOr r "eab_hash", sOr (get r "ca") "key",
+                    sOr (get r "ca") "contacts"]
   | _ => []
 
 def acctStrings (a : Json) : List String :=
@@ -46,7 +51,8 @@ def epOfJ (t : Tbl) (p : Json) : Option (EpName × EpRec) :=
     some (idOf t (strOf n),
       { creation := 0, accountUrl := idOf t (sOr r "account_url"), ordersUrl := idOf t (sOr r "orders_url"),
         keyHash := optId t (sOr r "key_hash"), contactsHash := optId t (sOr r "contacts_hash"),
-        eabHash := optId t (sOr r "eab_hash"), ca := ⟨0, none⟩ })
+        eabHash := optId t (sOr r "eab_hash"),
+        ca := ⟨idOf t (sOr (get r "ca") "key"), optId t (sOr (get r "ca") "contacts")⟩ })
   | _ => none
 
 def acctOfJ (t : Tbl) (a : Json) : Account :=
@@ -63,7 +69,9 @@ def epToJ (t : Tbl) (p : EpName × EpRec) : Json :=
     ("key_hash", Json.str (strOfOpt t p.2.keyHash)),
     ("contacts_hash", Json.str (strOfOpt t p.2.contactsHash)),
     ("eab_hash", Json.str (strOfOpt t p.2.eabHash)),
-    ("creation", Json.num p.2.creation)]]
+    ("creation", Json.num p.2.creation),
+    ("ca", Json.mkObj [("key", Json.str (strOfId t p.2.ca.key)),
+                       ("contacts", Json.str (strOfOpt t p.2.ca.contacts))])]]
 
 def acctToJ (t : Tbl) (a : Account) : Json :=
   Json.mkObj [
@@ -74,7 +82,8 @@ def acctToJ (t : Tbl) (a : Account) : Json :=
     ("eab_hash", match a.shared.eab with | none => Json.null | some b => Json.str (strOfId t b))]
 
 /-- {"k":"account","location":url|null,"orders":url|null,"existing":bool} | {"k":"ok"} |
-{"k":"acme","type":"accountDoesNotExist"|…} | {"k":"err"} -/
+{"k":"acme","type":"accountDoesNotExist"|"sigRefused"|…} | {"k":"err"} |
+{"k":"lost"} (processed by the CA, answer lost) -/
 def ansStrings (j : Json) : List String := [sOr j "location", sOr j "orders"]
 
 def optUrl (t : Tbl) (j : Json) (k : String) : Option Url :=
@@ -87,7 +96,9 @@ def ansOfJ (t : Tbl) (j : Json) : Ans :=
   if k == "account" then .account ⟨optUrl t j "location", optUrl t j "orders", bool j "existing"⟩
   else if k == "ok" then .okOther
   else if k == "acme" then
-    .acmeErr (if str j "type" == "accountDoesNotExist" then .accountDoesNotExist else .other)
+    .acmeErr (if str j "type" == "accountDoesNotExist" then .accountDoesNotExist
+              else if str j "type" == "sigRefused" then .sigRefused else .other)
+  else if k == "lost" then .lost
   else .otherErr
 
 def optUrlToJ (t : Tbl) (o : Option Url) : Json :=
@@ -98,8 +109,10 @@ def ansToJ (t : Tbl) : Ans → Json
                               ("orders", optUrlToJ t a.orders), ("existing", a.existing)]
   | .okOther => Json.mkObj [("k", "ok")]
   | .acmeErr .accountDoesNotExist => Json.mkObj [("k", "acme"), ("type", "accountDoesNotExist")]
+  | .acmeErr .sigRefused => Json.mkObj [("k", "acme"), ("type", "sigRefused")]
   | .acmeErr .other => Json.mkObj [("k", "acme"), ("type", "other")]
   | .otherErr => Json.mkObj [("k", "err")]
+  | .lost => Json.mkObj [("k", "lost")]
 
 def kindS : Flow.ReqKind → String
   | .newAccount => "newAccount"
@@ -107,6 +120,7 @@ def kindS : Flow.ReqKind → String
   | .keyChange => "keyChange"
   | .directory => "directory"
   | .newOrder => "newOrder"
+  | .accountProbe => "accountProbe"
   | _ => "other"
 
 def targetToJ (t : Tbl) : Target → Json
@@ -146,7 +160,9 @@ def eventsToJ (log : List MEv) : List Json :=
     | .hooks _ ok => Json.str (if ok then "hook:ok" else "hook:fail")
     | .saveAccount => Json.str "write"
 
-def variantOfS (s : String) : Flow.Variant := if s == "old" then .old else .current
+def variantOfS (s : String) : Flow.Variant :=
+  if s == "old" then .old else if s == "preFix" then .preFix
+  else if s == "at5ce05e3" then .at5ce05e3 else .current
 
 /-- c11_sync_multi: one `syncRun` (see the header of this file and of the model). -/
 def opSyncMulti (j : Json) : Json :=
